@@ -303,7 +303,7 @@ fn wrong_literal(p: &mut Prng, ty: &Ty) -> Expr {
     }
 }
 
-pub const KINDS: [&str; 24] = [
+pub const KINDS: [&str; 25] = [
     "type",               // operand/argument/field/condition/element/return/assigned value of another type
     "arity",              // wrong number of arguments / pattern binders
     "unknown-name",       // a variable / function / type / field / variant nobody declared
@@ -328,6 +328,7 @@ pub const KINDS: [&str; 24] = [
     "recursive-type",
     "recursive-const",
     "drop-value",         // the value of a non-unit block is dropped (`e` → `e;`), else-less `if` used as a value
+    "drop-value-after-loop", // the function's value is only returned from inside a loop that may not run
 ];
 
 pub struct Mutant {
@@ -889,6 +890,34 @@ pub fn mutate(prng: &mut Prng, prog: &Prog, kind: &'static str) -> Option<Mutant
                 }
             }
             Some(p)
+        }
+        "drop-value-after-loop" => {
+            let mut seed = prng.clone();
+            prng.next();
+            pick_block(
+                prng,
+                prog,
+                &|b, k, it| {
+                    matches!(k, BlockKind::FnBody(_))
+                        && b.last.is_some()
+                        && !matches!(it.ret, Some(Ty::Unit) | Some(Ty::Verdict(..)))
+                        && !matches!(b.last.as_deref().map(|e| e.strip()), Some(Expr::Ret(..)))
+                },
+                &mut |b, _, _| {
+                    let e = b.last.take().unwrap();
+                    let body = Block { stmts: vec![Stmt::Do(Expr::Ret(RetKind::Return, Some(e)))], last: None };
+                    let lp = if seed.chance(1, 2) {
+                        detail = "value only returned from inside a while loop".into();
+                        Expr::While(Box::new(Expr::BoolLit(seed.chance(1, 2))), body)
+                    } else {
+                        detail = "value only returned from inside a for loop".into();
+                        Expr::For(95_000, Box::new(Expr::ListLit(vec![Expr::BoolLit(true)])), body)
+                    };
+                    b.stmts.push(Stmt::Do(lp));
+                    // something after the loop, so that the loop is not the block's value
+                    b.stmts.push(Stmt::Do(Expr::UnitLit));
+                },
+            )
         }
         "drop-value" => {
             if prng.chance(2, 3) {
